@@ -172,3 +172,53 @@ func TestF27_ConcurrentDirReadsOnOneFid(t *testing.T) {
 	}
 	wg.Wait()
 }
+
+// F-28: the connection is dropped (a malformed frame) while a Twalk is still creating its newfid:
+// Conn.close handed the half-made fid to FidDestroy while Ufs.Walk was storing its Aux — a torn
+// read of the interface value, nil dereference, process gone. Rare: needs many tries.
+func TestF28_DisconnectWhileWalkCreatesFid(t *testing.T) {
+	_, root := tree(t)
+	u := new(g.Ufs)
+	u.Root = root
+	u.Msize = 8192
+	if !u.Start(u) {
+		t.Fatal("ufs start")
+	}
+	uname := g.OsUsers.Uid2User(os.Getuid()).Name()
+	mk := func(tag uint16, pack func(fc *g.Fcall) error) []byte {
+		fc := g.NewFcall(8192)
+		pack(fc)
+		g.SetTag(fc, tag)
+		return append([]byte(nil), fc.Pkt...)
+	}
+	var wg sync.WaitGroup
+	for w := 0; w < 8; w++ {
+		wg.Add(1)
+		go func() {
+			defer wg.Done()
+			for i := 0; i < 300; i++ {
+				a, b := net.Pipe()
+				u.NewConn(conn{a})
+				go func() {
+					buf := make([]byte, 65536)
+					for {
+						if _, err := b.Read(buf); err != nil {
+							return
+						}
+					}
+				}()
+				var s []byte
+				s = append(s, mk(g.NOTAG, func(fc *g.Fcall) error { return g.PackTversion(fc, 8192, "9P2000") })...)
+				s = append(s, mk(1, func(fc *g.Fcall) error { return g.PackTattach(fc, 0, g.NOFID, uname, "", uint32(os.Getuid()), false) })...)
+				for k := uint32(1); k < 6; k++ {
+					kk := k
+					s = append(s, mk(uint16(1+k), func(fc *g.Fcall) error { return g.PackTwalk(fc, 0, kk, []string{"d"}) })...)
+				}
+				s = append(s, 7, 0, 0, 0, 120, 1, 0) // a 7-byte Tclunk: malformed, ends the connection
+				b.Write(s)
+				b.Close()
+			}
+		}()
+	}
+	wg.Wait()
+}
